@@ -164,8 +164,18 @@ def histories(ctx, k):
                     d += "\n" + ctx.rng.choice(USES)
             elif r < 0.85:
                 d = ctx.rng.choice(USES)
-            else:
+            elif r < 0.93:
                 d = gen.md_doc(ctx.rng, 5)
+            elif r < 0.97 and h:
+                # an earlier document of this history again, in another letter case (anything remembered under a case-folded / normalised key shows here)
+                d = ctx.rng.choice([str.lower, str.upper, str.swapcase, str.title])(ctx.rng.choice(h))
+            else:
+                # the same destinations / labels / info strings in two spellings within one history
+                u = ctx.rng.choice(["https://Example.com/Docs/README.html", "/Static/Logo.PNG", "HTTP://E.F/g", "mailto:Me@Ex.Org", "#Frag", "Data:image/PNG;base64,AA"])
+                v = ctx.rng.choice([u.lower(), u.upper(), u.swapcase(), u])
+                d = ctx.rng.choice(["[x](%s) ![i](%s)", "<%s> and [r]\n\n[r]: %s", "```%s\ncode\n```\n\n[a](%s 'T')", "see %s [b](%s \"t\")"]) % (u, v)
+                if ctx.rng.random() < 0.5:
+                    d = d.replace(u, v)
             h.append(d)
         out.append(h)
     return out
